@@ -3,6 +3,8 @@ import importlib
 
 MODULES = [
     "externals",
+    "reduction",
+    "queues",
     "process_executor",
     "context",
     "properties",
